@@ -894,3 +894,18 @@ Qed.
 Lemma reachable_wfb : forall k v g ops s0, v_hash v CODE_EMPTY = EMPTYH -> import k v g = Ok s0 ->
   wfb v (run k v ops s0) = true.
 Proof. intros. apply wf_wfb. eapply reachable_wf; eassumption. Qed.
+
+(* the exported document is a function of what is observable: code that no account refers to (left behind by
+   destroyed contracts) does not leak into it *)
+Lemma export_observable : forall k v s1 s2, wfb v s1 = true ->
+  e_params (s_evm s1) = e_params (s_evm s2) -> e_codehash (s_evm s1) = e_codehash (s_evm s2) ->
+  e_storage (s_evm s1) = e_storage (s_evm s2) -> (forall a, q_code (s_evm s1) a = q_code (s_evm s2) a) ->
+  s_fm s1 = s_fm s2 -> c_params (s_cpc s1) = c_params (s_cpc s2) ->
+  zhas (k_staking_addr k) (c_metas (s_cpc s1)) = zhas (k_staking_addr k) (c_metas (s_cpc s2)) ->
+  export k s1 = export k s2.
+Proof.
+  intros k v s1 s2 Hw Hp Hch Hst Hq Hfm Hcp Hz. unfold export. rewrite Hp, Hfm, Hcp, Hz. f_equal.
+  apply export_contracts_ext; [exact Hch|exact Hst|].
+  intros a h Hin. pose proof (Hq a) as Ha. unfold q_code in Ha. rewrite <- Hch in Ha.
+  rewrite (In_zget _ _ _ (w_ch _ _ (wf_e _ _ (wfb_wf _ _ Hw))) Hin) in Ha. exact Ha.
+Qed.
